@@ -229,11 +229,41 @@ def is_num(v):
     return isinstance(v, (VInt, VReal, VBool))
 
 
+def int_term_to_real(t, depth=0):
+    """ToReal pushed inward over + - * ite and numerals, so that int-then-real and real-only products of the
+    same quantities become the same polynomial (z3 does not distribute to_real over nonlinear products)"""
+    if z3.is_int_value(t):
+        return z3.RealVal(t.as_long())
+    if depth < 12 and z3.is_app(t):
+        k = t.decl().kind()
+        ch = t.children()
+        if k == z3.Z3_OP_ADD:
+            r = int_term_to_real(ch[0], depth + 1)
+            for c in ch[1:]:
+                r = r + int_term_to_real(c, depth + 1)
+            return r
+        if k == z3.Z3_OP_SUB and len(ch) >= 2:
+            r = int_term_to_real(ch[0], depth + 1)
+            for c in ch[1:]:
+                r = r - int_term_to_real(c, depth + 1)
+            return r
+        if k == z3.Z3_OP_UMINUS:
+            return -int_term_to_real(ch[0], depth + 1)
+        if k == z3.Z3_OP_MUL:
+            r = int_term_to_real(ch[0], depth + 1)
+            for c in ch[1:]:
+                r = r * int_term_to_real(c, depth + 1)
+            return r
+        if k == z3.Z3_OP_ITE:
+            return z3.If(ch[0], int_term_to_real(ch[1], depth + 1), int_term_to_real(ch[2], depth + 1))
+    return z3.ToReal(t)
+
+
 def to_real(v):
     if isinstance(v, VReal):
         return v.t
     if isinstance(v, VInt):
-        return z3.ToReal(v.t)
+        return int_term_to_real(v.t)
     if isinstance(v, VBool):
         return z3.If(v.t, z3.RealVal(1), z3.RealVal(0))
     raise Unsupported('to_real(%r)' % (v,))
@@ -337,100 +367,4 @@ def eq(a, b):
     return z3.BoolVal(False)
 
 
-# ---------------------------------------------------------------------------------------------------------
-# type descriptors:  int real bool str none blob opaque  tuple[a,b,..]  seq[T]  list[T]  opt[T]  T|None
-#                    A|B (non-None unions: forked)   obj:Name   gridlist[T]
-
-class Ty(object):
-    def __init__(self, kind, args=(), name=None):
-        self.kind = kind
-        self.args = tuple(args)
-        self.name = name
-
-    def __repr__(self):
-        if self.kind == 'obj':
-            return 'obj:%s' % self.name
-        if self.args:
-            return '%s[%s]' % (self.kind, ','.join(map(repr, self.args)))
-        return self.kind
-
-
-def parse_type(s):
-    if isinstance(s, Ty):
-        return s
-    toks = []
-    cur = ''
-    for ch in s.replace(' ', ''):
-        if ch in '[],|':
-            if cur:
-                toks.append(cur)
-                cur = ''
-            toks.append(ch)
-        else:
-            cur += ch
-    if cur:
-        toks.append(cur)
-    pos = [0]
-
-    def peek():
-        return toks[pos[0]] if pos[0] < len(toks) else None
-
-    def eat(t=None):
-        x = toks[pos[0]]
-        if t is not None and x != t:
-            raise ValueError('type syntax: expected %s got %s in %r' % (t, x, s))
-        pos[0] += 1
-        return x
-
-    def atom():
-        name = eat()
-        if name.startswith('obj:'):
-            return Ty('obj', name=name[4:])
-        if peek() == '[':
-            eat('[')
-            args = [union()]
-            while peek() == ',':
-                eat(',')
-                args.append(union())
-            eat(']')
-            if name == 'list':
-                return Ty('seq', args, name='list')
-            return Ty(name, args)
-        if name == 'None':
-            name = 'none'
-        if name == 'float':
-            name = 'real'
-        return Ty(name)
-
-    def union():
-        alts = [atom()]
-        while peek() == '|':
-            eat('|')
-            alts.append(atom())
-        if len(alts) == 1:
-            return alts[0]
-        nn = [a for a in alts if a.kind != 'none']
-        has_none = len(nn) != len(alts)
-        inner = nn[0] if len(nn) == 1 else Ty('union', nn)
-        return Ty('opt', [inner]) if has_none else inner
-
-    t = union()
-    if pos[0] != len(toks):
-        raise ValueError('type syntax: trailing tokens in %r' % s)
-    return t
-
-
-def expand_unions(t):
-    """list of union-free types (non-None unions are forked by the caller)."""
-    if t.kind == 'union':
-        out = []
-        for a in t.args:
-            out.extend(expand_unions(a))
-        return out
-    if not t.args:
-        return [t]
-    combos = [[]]
-    for a in t.args:
-        alts = expand_unions(a)
-        combos = [c + [x] for c in combos for x in alts]
-    return [Ty(t.kind, c, t.name) for c in combos]
+from .values_types import Ty, parse_type, expand_unions     # noqa  (z3-free module, shared with the replayer)
